@@ -1,6 +1,6 @@
 (* Executable wrappers of the dense-matrix and solver models for the correspondence check. *)
-From Coq Require Import NArith Arith List Bool.
-From OFV Require Import ListAux Dense DenseSolve ITRun.
+From Coq Require Import ZArith NArith Arith List Bool.
+From OFV Require Import ListAux Dense DenseSolve ITRun HweightArray.
 Import ListNotations.
 
 Inductive dop :=
@@ -8,7 +8,12 @@ Inductive dop :=
 | DCopy (dr dc : nat) (junk : list (nat * nat))        (* copy into a larger matrix pre-filled with junk bits, continue on it *)
 | DCopyRows (rows : list nat) (junk : list (nat * nat))
 | DCopyCols (cols : list nat) (junk : list (nat * nat))
-| DXorRows (from to : nat) | DRowWeight (i : nat) | DColWeight (j : nat) | DRowEmpty (i : nat).
+| DXorRows (from to : nat) | DRowWeight (i : nat) | DColWeight (j : nat) | DRowEmpty (i : nat)
+| DRowWeightIF (i nb : nat).                            (* of_mod2dense_row_weight_ignore_first *)
+
+(* result code of the weight with ignored words: the weight, 9999 for UINT32(-1), 9998 when the model says the C would read past the row *)
+Definition wif_code (o : option Z) : nat :=
+  match o with Some z => if (z <? 9998)%Z then Z.to_nat z else 9999 | None => 9998 end.
 
 Definition set_all (m : dmat) (l : list (nat * nat)) : dmat := fold_left (fun acc e => d_set acc (fst e) (snd e) true) l m.
 
@@ -25,7 +30,11 @@ Definition dense_step (m : dmat) (o : dop) : dmat * nat :=
   | DRowWeight i => (m, d_row_weight m i)
   | DColWeight j => (m, d_col_weight m j)
   | DRowEmpty i => (m, if d_row_is_empty m i then 1 else 0)
+  | DRowWeightIF i nb => (m, wif_code (d_row_weight_ignore_first m i nb))
   end.
+
+(* of_hweight_array on a raw array of 32-bit words *)
+Definition hweight_array_run (ws : list Z) (size : Z) : option Z := hweight_array ws size.
 
 (* solver on byte-string symbols of length L *)
 Definition solve_bytes (p q L : nat) (A : list (list bool)) (b : list (option (list N))) : option (list (list N)) :=
